@@ -451,6 +451,9 @@ class FailPos:
                 plans.append({"kind": "fail_at", "k": k, "rc": 1, "realistic": True})
                 plans.append({"kind": "enoent_at", "k": k})
             plans.append({"kind": "missing_binary"})
+            for role in sorted(set(e["role"] for e in res0.events if e["kind"] == "vcs" and e["role"] in fakevcs.MUTATING)):
+                # the step fails however often it is tried, with the words git / hg use for a repository lock
+                plans.append({"kind": "fail_role_all", "role": role, "rc": 128, "realistic": "lock"})
             for which in ("pre", "post"):
                 if exp[which]:
                     plans.append({"kind": "hook", "which": which, "how": "fail"})
